@@ -746,3 +746,192 @@ Definition i_loc (k : lkind) (i : op_in) : loc_in :=
 Definition only_headers (i : op_in) : bool :=
   negb (has_params (i_path i)) && negb (has_params (i_query i))
   && match b_alts (i_body i) with [] => true | _ => false end.
+
+(* =====================================================================================
+   Part E.  The query ON THE WIRE: what the transport really sends for a query dict, containers included.
+            jsonify_python_specific_types (_hypothesis.py:386), RequestsTransport.serialize_case
+            (transport/requests.py:59-66: a value equal to the empty dict is sent as the empty text),
+            requests RequestEncodingMixin._encode_params + urllib.parse.urlencode(doseq=True),
+            and the guard is_non_empty_query of the query filter of negative_schema
+            (negative/__init__.py:94-109), which repeats the loop of _encode_params on the RAW value
+            (before the serializer and before jsonify).
+            Parameters without a serializer (declared integer / boolean / string / no type, or an array with
+            the default explode): get_parameter_serializer returns None for them.
+   ===================================================================================== *)
+Definition jq := list (str * json).
+
+(* jsonify_python_specific_types: the stack only ever receives dicts (the branch for a list value pushes the KEYS of the
+   enclosing dict, which are ignored), so booleans and None are rewritten at the top level and inside nested dicts, never
+   inside lists *)
+Fixpoint jsonify_val (v : json) : json :=
+  match v with
+  | JBool b => JStr (if b then s_true else s_false)
+  | JNull => JStr s_null
+  | JObj kvs => JObj ((fix go (l : list (str * json)) : list (str * json) :=
+                         match l with [] => [] | (k, x) :: r => (k, jsonify_val x) :: go r end) kvs)
+  | _ => v
+  end.
+Definition jsonify_query (q : jq) : jq := map (fun kv => (fst kv, jsonify_val (snd kv))) q.
+
+(* serialize_case: if value == {} then the empty text *)
+Definition empty_dict_to_text (v : json) : json := match v with JObj [] => JStr [] | _ => v end.
+Definition prepare_query (q : jq) : jq := map (fun kv => (fst kv, empty_dict_to_text (snd kv))) q.
+
+(* _encode_params: a str or a value without __iter__ is wrapped in a list; a list gives its items, a dict its keys *)
+Definition iter_values (v : json) : list json :=
+  match v with
+  | JArr l => l
+  | JObj kvs => map (fun kv => JStr (fst kv)) kvs
+  | _ => [v]
+  end.
+Definition is_none (v : json) : bool := match v with JNull => true | _ => false end.
+(* the loop shared by _encode_params and is_non_empty_query: None items are skipped.
+   none_as_null = true is NOT the code: it is the variant that counts every None as the text null (sentinel) *)
+Definition entry_loop (none_as_null : bool) (kv : str * json) : list (str * json) :=
+  flat_map (fun v => if is_none v then (if none_as_null then [(fst kv, JStr s_null)] else []) else [(fst kv, v)])
+           (iter_values (snd kv)).
+Definition encode_loop (none_as_null : bool) (q : jq) : list (str * json) := flat_map (entry_loop none_as_null) q.
+
+(* urlencode(result, doseq=True): a str gives one pair; a value without len() one pair str(v); a sequence one pair per
+   element (a dict: per key), none for an empty one.  Every pair is the non-empty text k=v. *)
+Definition doseq_len (v : json) : nat :=
+  match v with JArr l => length l | JObj kvs => length kvs | _ => 1%nat end.
+Definition urlencode_count (r : list (str * json)) : nat := fold_right (fun kv n => (doseq_len (snd kv) + n)%nat) 0%nat r.
+Definition urlencode_nonempty (r : list (str * json)) : bool := negb (Nat.eqb (urlencode_count r) 0).
+
+(* the guard AS IN THE CODE, and the sentinel variant *)
+Definition is_non_empty_query (q : jq) : bool := urlencode_nonempty (encode_loop false q).
+Definition is_non_empty_query_none_as_null (q : jq) : bool := urlencode_nonempty (encode_loop true q).
+
+(* what requests is given, and the number of key=value pairs of the query string it builds *)
+Definition wire_result (q : jq) : list (str * json) := encode_loop false (prepare_query (jsonify_query q)).
+Definition wire_count (q : jq) : nat := urlencode_count (wire_result q).
+Definition entry_count (v : json) : nat :=
+  urlencode_count (entry_loop false ([], empty_dict_to_text (jsonify_val v))).
+
+(* Python str() of an element: repr() inside containers.  repr of a string is modelled for printable ASCII without
+   quote and backslash (None otherwise: not modelled) *)
+Definition simple_char (c : N) : bool := (32 <=? c) && (c <=? 126) && negb (c =? 39) && negb (c =? 92).
+Definition py_repr_str (s : str) : option str := if forallb simple_char s then Some (39 :: s ++ [39]) else None.
+Fixpoint all_some {A} (l : list (option A)) : option (list A) :=
+  match l with
+  | [] => Some []
+  | Some x :: r => match all_some r with Some r' => Some (x :: r') | None => None end
+  | None :: _ => None
+  end.
+Definition sep_comma : str := [44; 32].
+Definition s_None : str := [78; 111; 110; 101].
+Definition s_True : str := [84; 114; 117; 101].
+Definition s_False : str := [70; 97; 108; 115; 101].
+Fixpoint py_repr (v : json) : option str :=
+  match v with
+  | JNull => Some s_None
+  | JBool b => Some (if b then s_True else s_False)
+  | JInt z => Some (show_Z z)
+  | JStr s => py_repr_str s
+  | JArr l =>
+      match all_some ((fix go (l : list json) : list (option str) :=
+                         match l with [] => [] | x :: r => py_repr x :: go r end) l) with
+      | Some ts => Some (91 :: join sep_comma ts ++ [93])
+      | None => None
+      end
+  | JObj kvs =>
+      match all_some ((fix go (l : list (str * json)) : list (option str) :=
+                         match l with
+                         | [] => []
+                         | (k, x) :: r => (match py_repr_str k, py_repr x with
+                                           | Some a, Some b => Some (a ++ [58; 32] ++ b)
+                                           | _, _ => None
+                                           end) :: go r
+                         end) kvs) with
+      | Some ts => Some (123 :: join sep_comma ts ++ [125])
+      | None => None
+      end
+  end.
+Definition py_str (v : json) : option str := match v with JStr s => Some s | _ => py_repr v end.
+
+(* the texts urlencode emits for one value of the result list *)
+Definition doseq_texts (v : json) : option (list str) :=
+  match v with
+  | JStr s => Some [s]
+  | JArr l => all_some (map py_str l)
+  | JObj kvs => Some (map fst kvs)
+  | _ => match py_str v with Some t => Some [t] | None => None end
+  end.
+Fixpoint urlencode_pairs (r : list (str * json)) : option (list (str * str)) :=
+  match r with
+  | [] => Some []
+  | (k, v) :: r' =>
+      match doseq_texts v, urlencode_pairs r' with
+      | Some ts, Some ps => Some (map (fun t => (k, t)) ts ++ ps)
+      | _, _ => None
+      end
+  end.
+(* the decoded key=value pairs the server receives, in order (percent-encoding is undone by the server) *)
+Definition query_wire (q : jq) : option (list (str * str)) := urlencode_pairs (wire_result q).
+(* the texts sent under the name of one entry *)
+Definition entry_wire (v : json) : option (list str) :=
+  match urlencode_pairs (entry_loop false ([], empty_dict_to_text (jsonify_val v))) with
+  | Some ps => Some (map snd ps)
+  | None => None
+  end.
+
+(* ---- the declared query: name -> (type, required); the location schema parameters_to_json_schema builds is
+        type object, these properties, required, additionalProperties false ---- *)
+Record qparam := { q_type : prim; q_required : bool }.
+Definition qdecl := list (str * qparam).
+Definition valid_query (d : qdecl) (q : jq) : bool :=
+  forallb (fun kv => match assoc_get (fst kv) d with Some p => valid_prim (q_type p) (snd kv) | None => false end) q
+  && forallb (fun kp => negb (q_required (snd kp)) || assoc_mem (fst kp) q) d.
+(* what a server accepts that decodes the query string and reads each text as the declared type: every name declared,
+   sent once, its text in the lexical space of the type, every required name there *)
+Definition count_key (k : str) (ps : list (str * str)) : nat := length (filter (fun p => str_eqb (fst p) k) ps).
+Definition has_key (k : str) (ps : list (str * str)) : bool := existsb (fun p => str_eqb (fst p) k) ps.
+Definition wire_valid_query (d : qdecl) (ps : list (str * str)) : bool :=
+  forallb (fun p => match assoc_get (fst p) d with
+                    | Some qp => wire_valid (q_type qp) (snd p) && Nat.eqb (count_key (fst p) ps) 1
+                    | None => false
+                    end) ps
+  && forallb (fun kp => negb (q_required (snd kp)) || has_key (fst kp) ps) d.
+
+(* the filter of negative_schema for the query location; gd = the guard used *)
+Definition passes_query_filter (gd : jq -> bool) (d : qdecl) (q : jq) : bool := gd q && negb (valid_query d q).
+
+(* ---- regions ---- *)
+(* the guard rejects exactly the empty wire forms where no value is None or the empty dict at the top level
+   (those two are sent as the texts null and empty, the guard looks at the raw value and sees nothing) *)
+Definition no_none_or_empty_dict (q : jq) : bool :=
+  forallb (fun kv => match snd kv with JNull | JObj [] => false | _ => true end) q.
+(* every entry that makes the value invalid is still a violation in what its name carries on the wire:
+   an undeclared name sends at least one pair; a declared name with a value of the wrong type sends its name twice or
+   more, or once with a text outside the lexical space of the declared type *)
+Definition entry_survives (d : qdecl) (kv : str * json) : bool :=
+  match assoc_get (fst kv) d with
+  | None => Nat.leb 1 (entry_count (snd kv))
+  | Some p =>
+      valid_prim (q_type p) (snd kv)
+      || Nat.leb 2 (entry_count (snd kv))
+      || match entry_wire (snd kv) with Some [w] => negb (wire_valid (q_type p) w) | _ => false end
+  end.
+Definition query_survives (d : qdecl) (q : jq) : bool := forallb (entry_survives d) q.
+(* a sufficient syntactic condition: scalar values only, each declared one inside the coercion_safe region of Part C *)
+Definition is_container (v : json) : bool := match v with JArr _ | JObj _ => true | _ => false end.
+Definition scalar_query_safe (d : qdecl) (q : jq) : bool :=
+  forallb (fun kv => negb (is_container (snd kv)) &&
+                     match assoc_get (fst kv) d with
+                     | Some p => valid_prim (q_type p) (snd kv) || coercion_safe (q_type p) (snd kv)
+                     | None => true
+                     end) q.
+(* the class of finding F8: some entry sends nothing at all *)
+Definition entry_dropped (q : jq) : bool := existsb (fun kv => Nat.eqb (entry_count (snd kv)) 0) q.
+
+(* ---- the one query serializer that can remove what the guard saw: serialization.py extracted_object (a declared
+        object parameter with style form and explode true).  get_parameters_strategy applies the serializer AFTER the
+        filter of negative_schema: item.pop(name); a non-empty dict is merged into the query (item.update), anything
+        else leaves the name with the empty text (appended: the key was popped) ---- *)
+Definition extracted_object (name : str) (q : jq) : jq :=
+  match assoc_get name q with
+  | None => q
+  | Some (JObj ((_ :: _) as kvs)) => assoc_update (assoc_remove name q) kvs
+  | Some _ => assoc_set name (JStr []) (assoc_remove name q)
+  end.
